@@ -505,6 +505,7 @@ Boolean MACRO_Processor(PInputTag PInp, as_dynstr_t* p_dest) {
 
     if ((PInp->LineZ == 1) && (!PInp->GlobalSymbols)) {
         PushLocHandle(GetLocHandle());
+        PInp->First = False;
     }
 
     /* signal the end of the macro */
@@ -774,9 +775,11 @@ static Boolean MACRO_GetPos(PInputTag PInp, char* dest, size_t DestSize) {
 }
 
 static void MACRO_Restorer(PInputTag PInp) {
-    /* discard the local symbol space */
+    /* discard the local symbol space - if one was opened: an empty body
+       is never passed to the processor, popping then would discard the
+       space of the enclosing macro */
 
-    if (!PInp->GlobalSymbols) {
+    if (!PInp->GlobalSymbols && !PInp->First) {
         PopLocHandle();
     }
 
